@@ -649,11 +649,11 @@ class Executor:
     if isinstance(t, ast.Name):
       self.assign_name(t.id, v, t)
     elif isinstance(t, (ast.Tuple, ast.List)):
-      items = self.unpack(v, t)
       star = [i for i, e in enumerate(t.elts) if isinstance(e, ast.Starred)]
       if star:
         self.assign_starred(t, v)
         return
+      items = self.unpack(v, t)
       if len(items) != len(t.elts):
         self.oos('unpack arity mismatch', t)
       for e, it in zip(t.elts, items):
